@@ -1,7 +1,18 @@
 """C18 - random walks (hypergraphx.dynamics.randwalk) and simplicial contagion
 (hypergraphx.dynamics.contagion): correspondence of lean/Hgxv/Model/C18.lean with the real routines
-(recorded np.random draws are replayed by the model) and independent property oracles."""
+(recorded np.random draws are replayed by the model) and independent property oracles.
+
+The hypergraph OBJECT handed to the routines is reached through a history (`ops`): fresh insertion, constructor /
+batched insertion, temporary hyperedges and nodes removed again (id gaps), removal + re-insertion, repeated insertion,
+copies (the copy or the original is used, the other one is mutated afterwards), save + load (.json and binary .hgx)
+followed by mutations, induced sub-hypergraphs, remove_node(keep_edges), the same object used -> rewired -> used again.
+A pure-Python picture of the history (`Sim`) says which content the object must have; the oracles and the model
+only see that content."""
+import collections
+import copy as _copy
+import os
 import signal
+import tempfile
 import warnings
 from fractions import Fraction
 
@@ -9,23 +20,34 @@ import hgxv
 from hgxv import Q
 
 RULE = ("random-walk cases: hypergraphs on nodes 0..N-1 (N 2..7, rarely 1), hyperedge sizes 2-5, built connected by "
-        "attaching every new hyperedge to a covered node (12% deliberately disconnected to exercise the assertion), "
-        "nodes inserted in random order; per case the transition matrix, the stationary state, densities from every "
-        "unit vector and two random rational densities (horizons 0-5, exact hgxv.Q object arrays and float arrays) and a "
-        "sampled walk from every start node with np.random.choice recorded. Contagion cases: hypergraphs on 3..8 nodes "
-        "(sizes 2-5, mostly 2 and 3, possibly disconnected / isolated nodes / extra keys in I_0), random 0/1 initial "
-        "condition, horizon 1-9, all 8 rate triples in {0,1}^3 plus 6 random triples (mu=0, beta=beta_D=0, dyadic, "
-        "arbitrary floats), np.random.random recorded and replayed by the model. Distinct = canonical text of the case; "
-        "non-trivial = non-regular hypergraph (random walk) / trajectory that changes at >= 2 steps (contagion)")
-ASSUMPTIONS = ["nodes are labelled 0..N-1 and hyperedges have distinct members (what Hypergraph.get_edges() returns)",
+        "attaching every new hyperedge to a covered node (12% deliberately disconnected to exercise the assertion); the "
+        "Hypergraph object is reached by a generated history (fresh / constructor / add_edges / id gaps by temporary "
+        "hyperedges and nodes / removal + re-insertion / repeated insertion / copy-of-mutated-original and "
+        "original-of-mutated-copy / save+load .json and .hgx then mutated / subhypergraph / remove_node(keep_edges) / "
+        "used -> rewired in place -> used again; 12% weighted); per case the transition matrix, the stationary state, "
+        "densities from every unit vector, two random rational and one dyadic density (horizons 0-5, sometimes 8 or 13) "
+        "given as exact hgxv.Q object arrays, float64/32/16 arrays, int/uint/bool arrays, Python lists / tuples of "
+        "ints, bools, floats, Fractions, a 1xN row; a sampled walk from every start node (int / np.int64 start and "
+        "horizon, horizons 0-8, sometimes 30) with np.random.choice recorded. Contagion cases: hypergraphs on 3..8 nodes "
+        "(sizes 2-5, mostly 2 and 3, possibly disconnected / isolated nodes / extra keys in I_0; node labels 0..n-1, "
+        "integers with gaps, negative, huge, strings), reached by the same histories; random 0/1 initial condition given "
+        "as dict / OrderedDict / dict subclass with int, bool, float, np.int64 values (np.int64 keys), rarely with nodes "
+        "missing where the routine does not read them (T = 1 or nobody infected); horizon 1-9 (int / np.int64; T = 0 "
+        "must be rejected), all 8 rate triples in {0,1}^3 plus 6 random triples (mu=0, beta=beta_D=0, dyadic, arbitrary "
+        "floats) passed as int / float / np.float64 / bool / Fraction, np.random.random recorded and replayed by the "
+        "model. Distinct = canonical text of the case; non-trivial = non-regular hypergraph (random walk) / trajectory "
+        "that changes at >= 2 steps (contagion)")
+ASSUMPTIONS = ["nodes are labelled 0..N-1 (random walk) and hyperedges have distinct members (what Hypergraph.get_edges() returns)",
                "N >= 2 for the random-walk clauses (the one-node hypergraph has an all-nan matrix; counted, not judged)",
-               "I_0 maps every node of the hypergraph to 0 or 1; T >= 1",
+               "I_0 maps every node of the hypergraph to 0 or 1 (nodes may be missing only when no sweep is run); T >= 1",
                "np.random.choice(n, p=...) returns an index of positive probability; np.random.random() lies in [0, 1)"]
 TRUSTED = ["np.linalg.solve (LAPACK gesv) returns the solution of the repaired non-singular system up to rounding: "
            "RW_stationary_state is compared with d/sum(d) within 1e-9",
            "binary64 rounding of T/rowsum and of s @ K: matrices and densities are compared with the exact Rat model "
            "within 1e-12 (densities additionally exactly, on hgxv.Q object arrays, against the implementation's own K)",
-           "np.random.choice / np.random.random honour their contracts (recorded draws are replayed, not re-derived)"]
+           "np.random.choice / np.random.random honour their contracts (recorded draws are replayed, not re-derived)",
+           "the pure-Python picture of a history (sets of nodes and hyperedges under add/remove/copy/save+load/"
+           "subhypergraph) is what the container operations mean (C01/C08 prove it for the container model)"]
 BUDGET_S = {"quick": 50, "thorough": 800}
 
 TOL = 1e-12
@@ -96,14 +118,385 @@ def gen_edges(rng, n, connected, sizes):
     return edges
 
 
-def build(edges, node_order):
+# ------------------------------------------------------------------------------------------
+# histories: how the Hypergraph object of a case is reached
+#
+# ops (JSON lists; nodes are model indices, mapped to the case's labels for the real object):
+#   ["new", weighted]                         Hypergraph(weighted=...)
+#   ["ctor", [e..], weighted, [w..]|None]     Hypergraph(edge_list=..., weighted=..., weights=...)
+#   ["node", x] / ["nodes", [x..]]            add_node / add_nodes
+#   ["edge", e, w|None, "t"|"l"]              add_edge(tuple / list in the given member order, weight)
+#   ["edges", [e..], [w..]|None]              add_edges
+#   ["rm_edge", e] / ["rm_edges", [e..]]      remove_edge / remove_edges
+#   ["rm_node", x, keep]                      remove_node(x, keep_edges=keep)
+#   ["copy", "use_copy"|"use_orig"]           c = h.copy(); go on with c (h is kept) / with h (c is kept)
+#   ["other", j, "edge"|"rm_edge"|"rm_node", arg]   mutate the j-th kept object
+#   ["saveload", "json"|"hgx"]                save_hypergraph + load_hypergraph through a temporary file
+#   ["sub", [x..]]                            h = h.subhypergraph([x..])
+#   ["clear"]                                 h.clear()  (the same object is refilled afterwards)
+#   ["use"]                                   call the routines under test on the current object, ignore the results
+
+class Sim:
+    """pure-Python picture of a history: per object the set of nodes and the set of hyperedges (sorted tuples)"""
+
+    def __init__(self):
+        self.objs = []
+        self.cur = None
+        self.others = []
+
+    @property
+    def nodes(self):
+        return self.objs[self.cur][0]
+
+    @property
+    def edges(self):
+        return self.objs[self.cur][1]
+
+
+def _s_add(obj, e):
+    t = tuple(sorted(e))
+    if len(set(t)) != len(t):
+        raise RuntimeError("harness bug: hyperedge with repeated members in a history")
+    obj[1].add(t)
+    obj[0].update(t)
+
+
+def _s_rm(obj, e):
+    obj[1].remove(tuple(sorted(e)))
+
+
+def _s_rmnode(obj, x, keep):
+    if x not in obj[0]:
+        raise KeyError(x)
+    inc = [e for e in obj[1] if x in e]
+    if keep:
+        for e in inc:
+            obj[1].add(tuple(v for v in e if v != x))
+    for e in inc:
+        obj[1].discard(e)
+    obj[0].discard(x)
+
+
+def sim_apply(sim, op):
+    k = op[0]
+    if k == "new":
+        sim.objs.append((set(), set()))
+        sim.cur = len(sim.objs) - 1
+    elif k == "ctor":
+        sim.objs.append((set(), set()))
+        sim.cur = len(sim.objs) - 1
+        for e in op[1]:
+            _s_add(sim.objs[sim.cur], e)
+    elif k == "node":
+        sim.nodes.add(op[1])
+    elif k == "nodes":
+        sim.nodes.update(op[1])
+    elif k == "edge":
+        _s_add(sim.objs[sim.cur], op[1])
+    elif k == "edges":
+        for e in op[1]:
+            _s_add(sim.objs[sim.cur], e)
+    elif k == "rm_edge":
+        _s_rm(sim.objs[sim.cur], op[1])
+    elif k == "rm_edges":
+        for e in op[1]:
+            _s_rm(sim.objs[sim.cur], e)
+    elif k == "rm_node":
+        _s_rmnode(sim.objs[sim.cur], op[1], op[2])
+    elif k == "copy":
+        sim.objs.append((set(sim.nodes), set(sim.edges)))
+        if op[1] == "use_copy":
+            sim.others.append(sim.cur)
+            sim.cur = len(sim.objs) - 1
+        else:
+            sim.others.append(len(sim.objs) - 1)
+    elif k == "other":
+        obj = sim.objs[sim.others[op[1]]]
+        if op[2] == "edge":
+            _s_add(obj, op[3])
+        elif op[2] == "rm_edge":
+            _s_rm(obj, op[3])
+        else:
+            _s_rmnode(obj, op[3], False)
+    elif k == "saveload":
+        sim.objs.append((set(sim.nodes), set(sim.edges)))
+        sim.cur = len(sim.objs) - 1
+    elif k == "sub":
+        keep = set(op[1])
+        if not keep <= sim.nodes:
+            raise KeyError(op)
+        sim.objs.append((set(keep), {e for e in sim.edges if set(e) <= keep}))
+        sim.cur = len(sim.objs) - 1
+    elif k == "clear":
+        sim.nodes.clear()
+        sim.edges.clear()
+    elif k == "use":
+        pass
+    else:
+        raise ValueError(op)
+
+
+def content_of(ops):
+    sim = Sim()
+    for op in ops:
+        sim_apply(sim, op)
+    return sorted(sim.nodes), sorted(sim.edges)
+
+
+def fresh_ops(edges, node_order):
+    return [["new", False]] + [["node", x] for x in node_order] + [["edge", list(e), None, "t"] for e in edges]
+
+
+def legacy_ops(case):
+    """cases stored before histories existed: `edges`, `node_order` and the optional earlier content `warm`"""
+    edges, warm = [list(e) for e in case["edges"]], case.get("warm")
+    if not warm:
+        return fresh_ops(edges, case["node_order"])
+    ops = fresh_ops(warm, case["node_order"]) + [["use"]]
+    ws, es = {tuple(sorted(e)) for e in warm}, {tuple(sorted(e)) for e in edges}
+    return ops + [["rm_edge", list(e)] for e in sorted(ws - es)] + [["edge", list(e), None, "t"] for e in sorted(es - ws)]
+
+
+def run_history(case, use_cb=None):
+    """execute the history on the real code; returns the Hypergraph object the case is about"""
     from hypergraphx import Hypergraph
-    h = Hypergraph()
+    from hypergraphx.readwrite.load import load_hypergraph
+    from hypergraphx.readwrite.save import save_hypergraph
+    labels = case.get("labels")
+    L = (lambda x: labels[x]) if labels else (lambda x: x)
+    LE = lambda e: tuple(L(v) for v in e)  # noqa: E731
+    h, others = None, []
+    for op in case["ops"]:
+        k = op[0]
+        if k == "new":
+            h = Hypergraph(weighted=bool(op[1]))
+        elif k == "ctor":
+            h = Hypergraph(edge_list=[LE(e) for e in op[1]], weighted=bool(op[2]), weights=op[3])
+        elif k == "node":
+            h.add_node(L(op[1]))
+        elif k == "nodes":
+            h.add_nodes([L(x) for x in op[1]])
+        elif k == "edge":
+            e = LE(op[1])
+            h.add_edge(list(e) if op[3] == "l" else e, weight=op[2])
+        elif k == "edges":
+            h.add_edges([LE(e) for e in op[1]], weights=op[2])
+        elif k == "rm_edge":
+            h.remove_edge(LE(op[1]))
+        elif k == "rm_edges":
+            h.remove_edges([LE(e) for e in op[1]])
+        elif k == "rm_node":
+            h.remove_node(L(op[1]), keep_edges=bool(op[2]))
+        elif k == "copy":
+            c = h.copy()
+            if op[1] == "use_copy":
+                others.append(h)
+                h = c
+            else:
+                others.append(c)
+        elif k == "other":
+            o = others[op[1]]
+            if op[2] == "edge":
+                o.add_edge(LE(op[3]), weight=2.5 if o.is_weighted() else None)
+            elif op[2] == "rm_edge":
+                o.remove_edge(LE(op[3]))
+            else:
+                o.remove_node(L(op[3]))
+        elif k == "saveload":
+            with tempfile.TemporaryDirectory(prefix="hgxv-c18-") as d:
+                fn = os.path.join(d, "h." + op[1])
+                save_hypergraph(h, fn, binary=(op[1] == "hgx"))
+                h = load_hypergraph(fn)
+        elif k == "sub":
+            h = h.subhypergraph([L(x) for x in op[1]])
+        elif k == "clear":
+            h.clear()
+        elif k == "use":
+            if use_cb is not None:
+                use_cb(h)
+        else:
+            raise ValueError(op)
+    return h, others
+
+
+def _pick(rng, table):
+    r = rng.random() * sum(w for _, w in table)
+    for name, w in table:
+        r -= w
+        if r < 0:
+            return name
+    return table[-1][0]
+
+
+ROUTES = [("fresh", 20), ("ctor", 6), ("warm", 13), ("gaps", 9), ("reinsert", 8), ("copy", 12), ("json", 9), ("hgx", 11),
+          ("sub", 4), ("keep", 3), ("mixed", 5)]
+
+
+def gen_history(rng, n, node_order, edges, route=None):
+    """a history whose final object has nodes 0..n-1 and exactly the hyperedges `edges`; returns (route, ops)"""
+    tgt = {tuple(sorted(e)) for e in edges}
+    route = route or _pick(rng, ROUTES)
+    if n < 2 or route == "fresh":
+        return "fresh", fresh_ops(edges, node_order)
+    weighted = rng.random() < 0.12
+    sim, ops = Sim(), []
+
+    def do(op):
+        sim_apply(sim, op)
+        ops.append(op)
+
+    def wt():
+        return rng.choice([0.5, 1, 2, 3.25]) if weighted else None
+
+    def shuffled(e):
+        e = list(e)
+        rng.shuffle(e)
+        return e
+
+    def add(e):
+        do(["edge", shuffled(e), wt(), rng.choice("ttl")])
+
+    # ---- what the object contains before the stages
+    temps_n = {"gaps": rng.randint(1, 4), "copy": rng.randint(0, 2), "json": rng.randint(0, 2), "hgx": rng.randint(0, 2),
+               "sub": rng.randint(1, 3), "keep": rng.randint(1, 3), "mixed": rng.randint(0, 3)}.get(route, 0)
+    p_keep = {"copy": 0.8, "json": 0.6, "hgx": 0.6, "mixed": 0.7}.get(route, 1.0)
+    extra_nodes = route in ("sub", "keep") or (temps_n > 0 and rng.random() < 0.35)
+    pool = list(range(n + 2)) if extra_nodes else list(range(n))
+    pre = [e for e in sorted(tgt) if rng.random() < p_keep]
+    if route in ("json", "hgx") and len(pre) == len(tgt) and pre:
+        pre.pop(rng.randrange(len(pre)))          # something is left to add after loading
+    rng.shuffle(pre)
+    if route == "warm":
+        # same numbers of nodes and hyperedges before and after the rewiring
+        for _ in range(10):
+            e2 = tuple(sorted(rng.sample(range(n), min(n, rng.choice([2, 2, 3])))))
+            if e2 not in tgt and pre:
+                pre[rng.randrange(len(pre))] = e2
+                break
+    temps = []
+    first = node_order[:rng.randint(0, n)] if route != "warm" else list(node_order)
+    style = rng.random()
+    if style < 0.3 or route == "ctor":
+        seq = [tuple(e) for e in pre]
+        for _ in range(temps_n):
+            cand = tuple(sorted(rng.sample(pool, min(len(pool), rng.choice([2, 2, 3, 3, 4])))))
+            if cand not in tgt and cand not in seq:
+                seq.append(cand)
+        rng.shuffle(seq)
+        do(["ctor", [list(e) for e in seq], weighted, [wt() for _ in seq] if weighted and rng.random() < 0.7 else None])
+        if first:
+            do(["nodes", list(first)]) if rng.random() < 0.5 else [do(["node", x]) for x in first]
+    else:
+        do(["new", weighted])
+        if first:
+            do(["nodes", list(first)]) if rng.random() < 0.3 else [do(["node", x]) for x in first]
+        seq = [tuple(e) for e in pre]
+        for _ in range(temps_n):
+            cand = tuple(sorted(rng.sample(pool, min(len(pool), rng.choice([2, 2, 3, 3, 4])))))
+            if cand not in tgt and cand not in seq:
+                seq.insert(rng.randint(0, len(seq)), cand)
+        if style < 0.5 and seq:
+            do(["edges", [list(e) for e in seq], [wt() for _ in seq] if weighted else None])
+        else:
+            for e in seq:
+                add(e)
+
+    def moves(k):
+        for _ in range(k):
+            missing = sorted(tgt - sim.edges)
+            extra = sorted(sim.edges - tgt)
+            present = sorted(tgt & sim.edges)
+            m = rng.random()
+            if m < 0.35 and missing:
+                add(rng.choice(missing))
+            elif m < 0.55 and extra:
+                do(["rm_edge", shuffled(rng.choice(extra))])
+            elif m < 0.8 and present:
+                e = rng.choice(present)
+                do(["rm_edge", list(e)])
+                if rng.random() < 0.8:
+                    add(e)
+            elif present:
+                add(rng.choice(present))           # repeated insertion of a stored hyperedge
+
+    def stage(name):
+        if name == "reinsert":
+            present = sorted(tgt & sim.edges)
+            if present:
+                out = rng.sample(present, min(len(present), rng.randint(1, 3)))
+                if len(out) > 1 and rng.random() < 0.4:
+                    do(["rm_edges", [list(e) for e in out]])
+                else:
+                    for e in out:
+                        do(["rm_edge", shuffled(e)])
+                rng.shuffle(out)
+                for e in out:
+                    add(e)
+                if rng.random() < 0.4:
+                    add(rng.choice(present))
+        elif name in ("json", "hgx"):
+            do(["saveload", name])
+        elif name == "copy":
+            do(["copy", rng.choice(["use_copy", "use_orig"])])
+        elif name == "sub":
+            keep = [x for x in sorted(sim.nodes) if x < n or rng.random() < 0.3]
+            rng.shuffle(keep)
+            do(["sub", keep])
+        elif name == "keep":
+            for x in sorted(sim.nodes):
+                if x >= n:
+                    do(["rm_node", x, True])
+        elif name == "use":
+            do(["use"])
+        elif name == "clear":
+            do(["use"])
+            do(["clear"])
+
+    stages = {"ctor": [], "warm": ["use"], "gaps": [], "reinsert": ["reinsert"], "copy": ["copy"], "json": ["json"],
+              "hgx": ["hgx"], "sub": ["sub"], "keep": ["keep"]}.get(route)
+    if stages is None:
+        stages = [rng.choice(["reinsert", "json", "hgx", "copy", "sub", "use", "keep", "clear"]) for _ in range(rng.randint(2, 3))]
+    if route in ("json", "hgx", "copy") and rng.random() < 0.3:
+        stages = [rng.choice(["reinsert", "use"])] + stages
+    for s in stages:
+        if route not in ("warm", "ctor", "gaps"):
+            moves(rng.randint(0, 1))
+        stage(s)
+        if route not in ("warm", "ctor", "gaps"):
+            moves(rng.randint(0, 2))
+    # ---- reach the target content
+    for x in sorted(sim.nodes):
+        if x >= n:
+            do(["rm_node", x, rng.random() < 0.4])
+    extra = sorted(sim.edges - tgt)
+    rng.shuffle(extra)
+    if len(extra) > 1 and rng.random() < 0.3:
+        do(["rm_edges", [list(e) for e in extra]])
+    else:
+        for e in extra:
+            do(["rm_edge", shuffled(e)])
+    missing = sorted(tgt - sim.edges)
+    rng.shuffle(missing)
+    for e in missing:
+        add(e)
     for x in node_order:
-        h.add_node(x)
-    for e in edges:
-        h.add_edge(tuple(e))
-    return h
+        if x not in sim.nodes:
+            do(["node", x])
+    # ---- the kept objects (the other side of every copy) are mutated afterwards
+    for j, idx in enumerate(sim.others):
+        for _ in range(rng.randint(1, 3)):
+            onodes, oedges = sorted(sim.objs[idx][0]), sorted(sim.objs[idx][1])
+            m = rng.random()
+            if m < 0.45 and len(onodes) >= 2:
+                pool2 = sorted(set(onodes) | {n + 2})
+                do(["other", j, "edge", rng.sample(pool2, min(len(pool2), rng.choice([2, 3])))])
+            elif m < 0.8 and oedges:
+                do(["other", j, "rm_edge", list(rng.choice(oedges))])
+            elif onodes:
+                do(["other", j, "rm_node", rng.choice(onodes)])
+    if (sorted(sim.nodes), sim.edges) != (list(range(n)), tgt):
+        raise RuntimeError("harness bug: history does not reach the target content")
+    return route, ops
 
 
 def is_connected_oracle(n, edges):
@@ -122,7 +515,36 @@ def is_connected_oracle(n, edges):
 
 
 def frac_of(x):
-    return Fraction(x) if isinstance(x, Fraction) else Fraction(float(x))
+    if isinstance(x, (Fraction, int)):
+        return Fraction(x)
+    return Fraction(float(x))
+
+
+def make_start(np, kind, s):
+    """the starting density `s` (Fractions) in one of the forms a user may hand to random_walk_density"""
+    if kind == "Q":
+        return np.array([Q(x) for x in s], dtype=object)
+    if kind in ("f64", "f32", "f16"):
+        return np.array([float(x) for x in s], dtype={"f64": np.float64, "f32": np.float32, "f16": np.float16}[kind])
+    if kind in ("i64", "i32", "i8", "u8"):
+        return np.array([int(x) for x in s], dtype={"i64": np.int64, "i32": np.int32, "i8": np.int8, "u8": np.uint8}[kind])
+    if kind == "bool":
+        return np.array([bool(x) for x in s])
+    if kind == "list_int":
+        return [int(x) for x in s]
+    if kind == "tuple_int":
+        return tuple(int(x) for x in s)
+    if kind == "list_bool":
+        return [bool(x) for x in s]
+    if kind == "list_float":
+        return [float(x) for x in s]
+    if kind == "tuple_float":
+        return tuple(float(x) for x in s)
+    if kind == "list_frac":
+        return [Fraction(x) for x in s]
+    if kind == "row":
+        return np.array([[float(x) for x in s]])
+    raise ValueError(kind)
 
 
 def close(a, b, tol):
@@ -132,36 +554,59 @@ def close(a, b, tol):
 # ------------------------------------------------------------------------------------------
 # random walk
 
+def prepare(case):
+    """fill in `ops` for cases stored in the old format and check the case against its own history"""
+    if "ops" not in case:
+        case = {**case, "ops": legacy_ops(case)}
+    nodes, edges = content_of(case["ops"])
+    return case, nodes, edges
+
+
+def content_check(ctx, case, h, nodes, E):
+    """the object reached by the history must list the nodes and hyperedges of the history's content"""
+    labels = case.get("labels")
+    L = (lambda x: labels[x]) if labels else (lambda x: x)
+    st, got = call(lambda: (sorted(h.get_nodes(), key=repr), sorted((tuple(sorted(e)) for e in h.get_edges()), key=repr)))
+    want = (sorted((L(x) for x in nodes), key=repr), sorted((tuple(sorted(L(v) for v in e)) for e in E), key=repr))
+    if st != "ok" or got != want:
+        ctx.disagree(case, f"the object reached by the history lists nodes/hyperedges {str(got)[:160]}, the history means {str(want)[:160]}")
+        return False
+    return True
+
+
 def check_rw(ctx, drv, case):
     import numpy as np
     from hypergraphx.dynamics import randwalk as RW
-    n, edges, node_order, npseed = case["N"], [tuple(e) for e in case["edges"]], case["node_order"], case["npseed"]
+    case, nodes_c, edges = prepare(case)
+    n, npseed = case["N"], case["npseed"]
+    if nodes_c != list(range(n)):
+        raise RuntimeError("harness bug: random-walk case whose history does not end on nodes 0..N-1")
     rng_local = __import__("random").Random(npseed)
-    warm = case.get("warm")
-    st, h = call(build, [tuple(e) for e in warm] if warm else edges, node_order)
-    if st != "ok":
-        ctx.violation(case, f"building the hypergraph failed: {h}")
-        return
-    if warm:
-        # the SAME object is first used with another hyperedge list of the same length (every routine called once),
-        # then rewired in place to the case's hyperedges: results must depend on the current content only
-        ctx.count("rw_same_object_rewired")
+
+    def use(h):
+        # the SAME object is used (every routine called once) before it is changed further:
+        # results must depend on the current content only
+        ctx.count("rw_used_before_mutation")
         call(RW.transition_matrix, h)
         call(RW.RW_stationary_state, h)
-        call(RW.random_walk_density, h, np.array([1.0] + [0.0] * (n - 1)), 1)
+        call(RW.random_walk_density, h, np.array([1.0] + [0.0] * (h.num_nodes() - 1)), 1)
         call(RW.random_walk, h, 0, 1)
-        ws, es = {tuple(sorted(e)) for e in warm}, {tuple(sorted(e)) for e in edges}
-        for e in sorted(ws - es):
-            call(h.remove_edge, e)
-        for e in sorted(es - ws):
-            call(h.add_edge, e)
+
+    st, res = call(run_history, case, use)
+    if st != "ok":
+        ctx.violation(case, f"building the hypergraph through its history failed: {res}")
+        return
+    h, _kept = res
+    ctx.count("rw_route_" + case.get("route", "legacy"))
+    if not content_check(ctx, case, h, nodes_c, edges):
+        return
     E = sorted(tuple(sorted(e)) for e in edges)
     conn = is_connected_oracle(n, E)
     # the property's closed forms, straight from the hyperedge list
     shared = [[sum(len(e) - 1 for e in E if i in e and j in e) if i != j else 0 for j in range(n)] for i in range(n)]
     d = [sum((len(e) - 1) ** 2 for e in E if i in e) for i in range(n)]
     regular = len(set(d)) <= 1
-    key = "rw|" + repr((n, E))
+    key = "rw|" + repr((n, E, case["ops"]))
     ctx.case(key, conn and n >= 2 and not regular, sample=case)
     ctx.count("rw_cases")
     ctx.count("rw_connected" if conn else "rw_disconnected")
@@ -230,31 +675,40 @@ def check_rw(ctx, drv, case):
                                     f"(size-1)^2 = {d}")
             lines.append("stat")
             expect.append(("vector", pi.tolist(), TOL_SOLVE))
-    # --- densities
+    # --- densities: every kind of starting vector the routine accepts
     starts = []
     for i in range(n):
-        starts.append([Fraction(int(i == k)) for k in range(n)])
+        starts.append(("unit", [Fraction(int(i == k)) for k in range(n)]))
     for _ in range(2):
         w = [rng_local.randint(0, 4) for _ in range(n)]
         if sum(w) == 0:
             w[rng_local.randrange(n)] = 1
-        starts.append([Fraction(x, sum(w)) for x in w])
+        starts.append(("rational", [Fraction(x, sum(w)) for x in w]))
+    w = [0] * n
+    for _ in range(16):
+        w[rng_local.randrange(n)] += 1
+    starts.append(("dyadic", [Fraction(x, 16) for x in w]))
     Kq = [[Fraction(float(K[i, j])) for j in range(n)] for i in range(n)]
-    for idx, s in enumerate(starts):
+    for idx, (shape, s) in enumerate(starts):
         if ctx.too_many():
             break
-        time = rng_local.randint(0, 5)
-        exact = True
-        st, out = call(RW.random_walk_density, h, np.array([Q(x) for x in s], dtype=object), time)
-        if st != "ok" or idx % 3 == 2:
-            exact = False
-            st, out = call(RW.random_walk_density, h, np.array([float(x) for x in s], dtype=float), time)
-            ctx.count("density_float_runs")
-        else:
-            ctx.count("density_exact_runs")
-        c2 = {**case, "density": [hgxv.enc_num(x) for x in s], "time": time}
+        kinds = ["Q"] * 4 + ["f64"] * 2 + ["list_float", "tuple_float", "list_frac", "row"]
+        if shape in ("unit", "dyadic"):
+            kinds += ["f32", "f16"]
+        if shape == "unit":
+            kinds += ["i64", "i64", "i32", "i8", "u8", "bool", "bool", "list_int", "list_int", "list_bool", "tuple_int"] * 1
+        kind = rng_local.choice(kinds)
+        time = rng_local.choice([0, 1, 2, 3, 4, 5] * 4 + [8, 13]) if kind != "Q" else rng_local.randint(0, 5)
+        targ = np.int64(time) if rng_local.random() < 0.15 else time
+        st, out = call(RW.random_walk_density, h, make_start(np, kind, s), targ)
+        if st != "ok" and kind == "Q":
+            kind = "f64"
+            st, out = call(RW.random_walk_density, h, make_start(np, kind, s), targ)
+        exact = kind == "Q"
+        ctx.count("density_start_" + kind)
+        c2 = {**case, "density": [hgxv.enc_num(x) for x in s], "density_kind": kind, "time": time}
         if st != "ok":
-            ctx.violation(c2, f"random_walk_density raised: {out}")
+            ctx.violation(c2, f"random_walk_density raised on a starting density given as {kind}: {out}")
             continue
         try:
             out = [[frac_of(x) for x in np.asarray(v).reshape(-1)] for v in out]
@@ -269,12 +723,12 @@ def check_rw(ctx, drv, case):
         for t in range(time):
             want = [sum(out[t][i] * Kq[i][j] for i in range(n)) for j in range(n)]
             if any(not close(a, b, 0 if exact else TOL) for a, b in zip(out[t + 1], want)):
-                ctx.violation(c2, f"density {t+1} is not density {t} times the transition matrix: "
+                ctx.violation(c2, f"density {t+1} is not density {t} times the transition matrix (start given as {kind}): "
                                   f"{[float(x) for x in out[t+1]]} vs {[float(x) for x in want]}")
                 break
         for t in range(time + 1):
             if not close(sum(out[t]), 1, TOL):
-                ctx.violation(c2, f"density {t} sums to {float(sum(out[t]))!r}")
+                ctx.violation(c2, f"density {t} sums to {float(sum(out[t]))!r} (start given as {kind})")
                 break
         lines.append("dens %s %d" % (hgxv.enc_list(s), time))
         expect.append(("matrix", out, TOL))
@@ -282,13 +736,15 @@ def check_rw(ctx, drv, case):
     for s in range(n):
         if ctx.too_many():
             break
-        time = rng_local.randint(0, 8)
+        time = rng_local.randint(0, 8) if rng_local.random() > 0.04 else 30
         c2 = {**case, "start": s, "time": time}
+        sarg = np.int64(s) if rng_local.random() < 0.2 else s
+        targ = np.int64(time) if rng_local.random() < 0.15 else time
         rec = hgxv.Recorder()
         with rec:
             rec.patch(np.random, "choice", "np-global")
             np.random.seed(npseed + s)
-            st, nodes = call(RW.random_walk, h, s, time)
+            st, nodes = call(RW.random_walk, h, sarg, targ)
         if st != "ok":
             ctx.violation(c2, f"random_walk raised: {nodes}")
             continue
@@ -362,34 +818,128 @@ def rate_triples(rng):
     return out
 
 
+class BoundaryDraws:
+    """stand-in for np.random.random: genuine draws mixed with the boundary values of its contract [0, 1) and of the
+    comparisons `draw < rate` (0.0, the rates themselves, their float neighbours, the largest float below 1)"""
+
+    def __init__(self, np, seed, rates):
+        self.rs = np.random.RandomState(seed % (2 ** 32))
+        vals = {0.0, 1.0 - 2.0 ** -53}
+        for r in rates:
+            r = float(r)
+            for v in (r, float(np.nextafter(r, 0.0)), float(np.nextafter(r, 1.0))):
+                if 0.0 <= v < 1.0:
+                    vals.add(v)
+        self.vals = sorted(vals)
+
+    def __call__(self):
+        u = float(self.rs.random_sample())
+        if u < 0.35:
+            return self.vals[int(self.rs.randint(len(self.vals)))]
+        return float(self.rs.random_sample())
+
+
+class _PlainSubclass(dict):
+    """a user's own dict subclass as initial condition"""
+
+
+def real_rate(np, x, rt):
+    if rt == "float":
+        return float(x)
+    if rt == "np":
+        return np.float64(x)
+    if rt == "bool01":
+        return bool(x) if x in (0, 1) else x
+    if rt == "frac":
+        return Fraction(x)
+    return x
+
+
+def real_I0(np, case, pairs, L):
+    conv = {"int": int, "bool": bool, "float": float, "npint": np.int64}[case.get("I0_values", "int")]
+    keyf = (lambda k: np.int64(L(k))) if case.get("I0_npkeys") and isinstance(L(pairs[0][0]), int) else L
+    items = [(keyf(k), conv(v)) for k, v in pairs]
+    ct = case.get("I0_type", "dict")
+    if ct == "OrderedDict":
+        return collections.OrderedDict(items)
+    if ct == "subclass":
+        return _PlainSubclass(items)
+    return dict(items)
+
+
 def check_cont(ctx, drv, case):
     import numpy as np
     from hypergraphx.dynamics.contagion import simplicial_contagion
-    edges, node_order = [tuple(e) for e in case["edges"]], case["node_order"]
-    I0 = {int(k): int(v) for k, v in (case["I0"].items() if isinstance(case["I0"], dict) else case["I0"])}
+    case, nodes_c, edges = prepare(case)
+    labels = case.get("labels")
+    L = (lambda x: labels[x]) if labels else (lambda x: x)
+    pairs = [(int(k), int(v)) for k, v in (case["I0"].items() if isinstance(case["I0"], dict) else case["I0"])]
+    I0 = dict(pairs)
     T, npseed = case["T"], case["npseed"]
-    st, h = call(build, edges, node_order)
+
+    def use(h):
+        ctx.count("contagion_used_before_mutation")
+        call(simplicial_contagion, h, {x: 1 for x in h.get_nodes()}, 3, 1, 1, 0)
+        call(simplicial_contagion, h, {x: 0 for x in h.get_nodes()}, 2, 0.5, 0.5, 0.5)
+
+    st, res = call(run_history, case, use)
     if st != "ok":
-        ctx.violation(case, f"building the hypergraph failed: {h}")
+        ctx.violation(case, f"building the hypergraph through its history failed: {res}")
         return
+    h, _kept = res
+    ctx.count("contagion_route_" + case.get("route", "legacy"))
+    ctx.count("contagion_labels_" + case.get("label_kind", "id"))
     E = sorted(tuple(sorted(e)) for e in edges)
-    nodes = list(h.get_nodes())
+    if not content_check(ctx, case, h, nodes_c, E):
+        return
+    back = {repr(L(x)): x for x in set(nodes_c) | set(I0)}
+    st, nodes = call(lambda: [back[repr(x)] for x in h.get_nodes()])
+    if st != "ok":
+        ctx.violation(case, f"get_nodes of the hypergraph failed / returned unknown nodes: {nodes}")
+        return
     keys = list(I0)
     N = len(I0)
     inf0 = [k for k in keys if I0[k] == 1]
-    lines = ["load %d %s" % (max(keys + [0]) + 1, hgxv.enc_lists(E))]
+    missing = [x for x in nodes_c if x not in I0]
+    if missing:
+        ctx.count("contagion_nodes_missing_in_I0")
+    if case.get("boundary_draws"):
+        ctx.count("contagion_boundary_draw_cases")
+    if missing and not (T <= 1 or not inf0):
+        # outside the quantifier: a node without initial condition would be read by the first sweep
+        ctx.count("contagion_missing_nodes_outside")
+        return
+    # the spreading is judged on the nodes of the history's content, I_0 completed by "susceptible" where no sweep reads it
+    I0_full = {**{x: 0 for x in missing}, **I0}
+    lines = ["load %d %s" % (max(keys + nodes_c + [0]) + 1, hgxv.enc_lists(E))]
     expect = [("plain", "ok")]
     changes_max = 0
+    Targ = np.int64(T) if case.get("T_np") else T
+    rt = case.get("rate_type", "asis")
+    if T == 0:
+        # outside the quantifier (no first entry exists): the routine must reject, as the model does
+        ctx.count("contagion_T0")
+        st, out = call(simplicial_contagion, h, real_I0(np, case, pairs, L), Targ, 1, 1, 0)
+        if st == "ok":
+            ctx.disagree(case, f"T = 0 is accepted and returns {str(out)[:80]}; the model rejects it")
+        return
     for (b, bd, mu) in [tuple(r) for r in case["rates"]]:
         if ctx.too_many():
             break
         c2 = {**case, "rates": [[b, bd, mu]]}
         det = all(x in (0, 1) for x in (b, bd, mu))
         rec = hgxv.Recorder()
-        with rec:
-            rec.patch(np.random, "random", "np-global")
-            np.random.seed(npseed)
-            st, out = call(simplicial_contagion, h, dict(I0), T, b, bd, mu)
+        genuine = np.random.random
+        try:
+            if case.get("boundary_draws"):
+                np.random.random = BoundaryDraws(np, npseed, (b, bd, mu))
+            with rec:
+                rec.patch(np.random, "random", "np-global")
+                np.random.seed(npseed)
+                st, out = call(simplicial_contagion, h, real_I0(np, case, pairs, L), Targ,
+                               real_rate(np, b, rt), real_rate(np, bd, rt), real_rate(np, mu, rt))
+        finally:
+            np.random.random = genuine
         if st != "ok":
             ctx.violation(c2, f"simplicial_contagion raised: {out}")
             continue
@@ -413,13 +963,15 @@ def check_cont(ctx, drv, case):
         if b == 0 and bd == 0 and any(y > x + TOL for x, y in zip(out, out[1:])):
             ctx.violation(c2, f"both infection rates 0 but the infected fraction increases: {out}")
         if det:
-            want = spread_oracle(E, nodes, I0, T, b, bd, mu)
+            want = spread_oracle(E, nodes_c, I0_full, T, b, bd, mu)
             if any(not close(x, Fraction(c, N), TOL) for x, c in zip(out, want)):
                 ctx.violation(c2, f"deterministic regime (beta, beta_D, mu) = {(b, bd, mu)}: trajectory "
                                   f"{[round(x * N) for x in out]} differs from the spreading through pairs and triangles {want}")
-            lines.append("spread %s %s %s %d %s %s %s" % (hgxv.enc_list(nodes), hgxv.enc_list(keys), hgxv.enc_list(inf0), T,
-                                                         hgxv.enc_num(b), hgxv.enc_num(bd), hgxv.enc_num(mu)))
-            expect.append(("plain", hgxv.enc_list(want)))
+            if T <= 10:
+                # the model's closed form iterates functions (cost exponential in T): long horizons only through `cont`
+                lines.append("spread %s %s %s %d %s %s %s" % (hgxv.enc_list(nodes), hgxv.enc_list(keys), hgxv.enc_list(inf0), T,
+                                                             hgxv.enc_num(b), hgxv.enc_num(bd), hgxv.enc_num(mu)))
+                expect.append(("plain", hgxv.enc_list(want)))
         changes_max = max(changes_max, sum(1 for x, y in zip(out, out[1:]) if x != y))
         cnt = [int(round(x * N)) for x in out]
         lines.append("cont %s %s %s %d %s %s %s %s" % (
@@ -427,7 +979,7 @@ def check_cont(ctx, drv, case):
             hgxv.enc_num(Fraction(float(b))), hgxv.enc_num(Fraction(float(bd))), hgxv.enc_num(Fraction(float(mu))),
             hgxv.enc_list(draws)))
         expect.append(("cont", cnt, out, len(draws)))
-    key = "cont|" + repr((E, nodes, sorted(I0.items()), T, npseed))
+    key = "cont|" + repr((E, nodes, sorted(I0.items()), T, npseed, case["ops"], case.get("label_kind")))
     ctx.case(key, changes_max >= 2, sample=case)
     ctx.count("contagion_cases")
     if drv is None:
@@ -455,19 +1007,28 @@ def gen_rw(rng):
     order = list(range(n))
     if rng.random() < 0.5:
         rng.shuffle(order)
-    case = {"kind": "rw", "N": n, "edges": [list(e) for e in edges], "node_order": order, "npseed": rng.randrange(2 ** 31)}
-    if n >= 3 and len(edges) >= 2 and rng.random() < 0.25:
-        # an earlier content of the same object: same number of nodes and hyperedges, one hyperedge different
-        cur = {tuple(sorted(e)) for e in edges}
-        for _ in range(10):
-            e2 = tuple(sorted(rng.sample(range(n), rng.choice([2, 2, 3]) if n >= 3 else 2)))
-            if e2 not in cur:
-                w = [list(e) for e in edges]
-                w[rng.randrange(len(w))] = list(e2)
-                if len({tuple(sorted(e)) for e in w}) == len(edges):
-                    case["warm"] = w
-                break
-    return case
+    route, ops = gen_history(rng, n, order, edges)
+    return {"kind": "rw", "N": n, "route": route, "ops": ops, "npseed": rng.randrange(2 ** 31)}
+
+
+LABEL_KINDS = [("id", 40), ("gap", 12), ("neg", 8), ("big", 6), ("str", 22), ("strnum", 12)]
+
+
+def make_labels(rng, kind, m):
+    if kind == "gap":
+        return sorted(rng.sample(range(0, 4 * m + 10), m))
+    if kind == "neg":
+        lo = -rng.randint(1, m)
+        return [lo + i for i in range(m)]
+    if kind == "big":
+        return [10 ** 12 + 7 * i for i in range(m)]
+    if kind == "str":
+        names = ["ann", "bob", "cy", "dee", "eve", "fay", "gus", "hal", "ida", "jo", "kit", "lou", "mo", "ned"]
+        rng.shuffle(names)
+        return names[:m]
+    if kind == "strnum":
+        return [str(i) for i in rng.sample(range(0, 30), m)]     # "10" < "9": the label order is not the index order
+    return None
 
 
 def gen_cont(rng):
@@ -482,14 +1043,35 @@ def gen_cont(rng):
         rng.shuffle(edges)
     order = list(range(n))
     rng.shuffle(order)
+    route, ops = gen_history(rng, n, order, edges)
     keys = list(range(n)) + ([n, n + 1] if rng.random() < 0.1 else [])
     rng.shuffle(keys)
-    p = rng.choice([0.15, 0.3, 0.5, 0.8])
+    p = rng.choice([0.15, 0.3, 0.5, 0.8, 0.8, 1.0])          # 1.0: everybody infected at the start
     I0 = [[k, int(rng.random() < p)] for k in keys]
     if rng.random() < 0.9 and not any(v for _, v in I0):
         I0[0][1] = 1
-    return {"kind": "cont", "edges": [list(e) for e in edges], "node_order": order, "I0": I0, "T": rng.randint(1, 9),
-            "rates": [list(r) for r in rate_triples(rng)], "npseed": rng.randrange(2 ** 31)}
+    T = rng.randint(1, 9) if rng.random() > 0.05 else rng.choice([12, 25, 40])
+    r = rng.random()
+    if r < 0.02:
+        T = 0
+    elif r < 0.06:
+        # nodes without an initial condition, where the routine never reads it: one entry only, or nobody infected
+        I0 = [kv for kv in I0 if kv[0] >= n or rng.random() < 0.6] or I0[:1]
+        if rng.random() < 0.5:
+            T = 1
+        else:
+            I0 = [[k, 0] for k, _ in I0]
+    label_kind = _pick(rng, LABEL_KINDS)
+    case = {"kind": "cont", "route": route, "ops": ops, "I0": I0, "T": T,
+            "rates": [list(r) for r in rate_triples(rng)], "npseed": rng.randrange(2 ** 31),
+            "I0_values": rng.choice(["int", "int", "int", "bool", "bool", "float", "npint"]),
+            "I0_type": rng.choice(["dict", "dict", "dict", "OrderedDict", "subclass"]),
+            "rate_type": rng.choice(["asis", "asis", "float", "np", "bool01", "frac"]),
+            "boundary_draws": rng.random() < 0.3, "T_np": rng.random() < 0.15, "I0_npkeys": rng.random() < 0.08, "label_kind": label_kind}
+    labels = make_labels(rng, label_kind, n + 3)
+    if labels is not None:
+        case["labels"] = labels
+    return case
 
 
 def run(ctx):
@@ -500,7 +1082,21 @@ def run(ctx):
     fixed = [(2, [[0, 1]]), (3, [[0, 1], [1, 2]]), (4, [[0, 1, 2], [2, 3]]), (4, [[0, 1], [1, 2], [2, 3], [0, 3]]),
              (3, [[0, 1, 2]]), (5, [[0, 1, 2, 3, 4], [0, 1]])]
     for n, es in fixed:
-        check_rw(ctx, drv, {"kind": "rw", "N": n, "edges": es, "node_order": list(range(n)), "npseed": 1})
+        check_rw(ctx, drv, {"kind": "rw", "N": n, "route": "fresh", "ops": fresh_ops(es, list(range(n))), "npseed": 1})
+    # boundary initial conditions: everybody / nobody / one node infected
+    for inf in ([0, 1, 2, 3, 4], [], [3]):
+        check_cont(ctx, drv, {"kind": "cont", "route": "fresh", "ops": fresh_ops([[0, 1, 2], [2, 3], [1, 3], [3, 4]], [0, 1, 2, 3, 4]),
+                              "I0": [[k, int(k in inf)] for k in range(5)], "T": 5,
+                              "rates": [[b, bd, mu] for b in (0, 1) for bd in (0, 1) for mu in (0, 1)] + [[0.5, 0.5, 0.5]],
+                              "npseed": 4, "boundary_draws": True})
+    # every history route on one small input of each part
+    for route, _w in ROUTES:
+        r2 = __import__("random").Random(17)
+        es = [[0, 1, 2], [2, 3], [1, 3], [3, 4]]
+        check_rw(ctx, drv, {"kind": "rw", "N": 5, "route": route, "ops": gen_history(r2, 5, [4, 3, 2, 1, 0], es, route)[1], "npseed": 2})
+        check_cont(ctx, drv, {"kind": "cont", "route": route, "ops": gen_history(r2, 5, [4, 3, 2, 1, 0], es, route)[1],
+                              "I0": [[k, int(k in (1, 2))] for k in range(5)], "T": 6,
+                              "rates": [[b, bd, mu] for b in (0, 1) for bd in (0, 1) for mu in (0, 1)], "npseed": 3})
     for i in range(max(n_rw, n_ct)):
         if i < n_rw:
             check_rw(ctx, drv, gen_rw(ctx.rng))
@@ -512,7 +1108,7 @@ def run(ctx):
 
 def replay(ctx, case):
     drv = ctx.driver() if ctx.model_available else None
-    case = {k: v for k, v in case.items() if k not in ("line", "density", "time", "start", "walk")}
+    case = {k: v for k, v in case.items() if k not in ("line", "density", "density_kind", "time", "start", "walk")}
     if case.get("kind") == "cont":
         check_cont(ctx, drv, case)
     else:
